@@ -126,8 +126,17 @@ def run(ck):
         elif how == "close":
             w.close()
         else:
-            ofmt = ck.rng.choice([x for x in range(11) if x != fmt])
-            other = laspy.PackedPointRecord.zeros(2, laspy.PointFormat(ofmt))
+            variant = ck.rng.choice(["other_id", "same_id_extra_dims", "same_id_extra_type"])
+            ck.count("wrong_format:" + variant)
+            inp["variant"] = variant
+            if variant == "other_id":
+                ofmt = ck.rng.choice([x for x in range(11) if x != fmt])
+                pf = laspy.PointFormat(ofmt)
+            else:
+                # same point format id, different extra dimensions: a different point format (record length / layout)
+                pf = laspy.PointFormat(fmt)
+                pf.add_extra_dimension(laspy.ExtraBytesParams("other", "u1" if variant == "same_id_extra_dims" else "f8"))
+            other = laspy.PackedPointRecord.zeros(2, pf)
         before = buf.getvalue()
         for chunk, label in ((other if other is not None else las.points[:1], "non-empty"), (las.points[0:0], "empty")):
             raised = None
